@@ -95,6 +95,38 @@ CLAIMED = {
             "Order of reset / cleanup among checks is free; after a failing end verdict the remaining checks need not be "
             "asked; verdicts for empty cells are taken from the real field.",
             "DESIGN.md section 5, C20"),
+    "C15": ("exploration",
+            "deterministic simulation with fault injection: independent ODF encoder with 12 optional encoding features -> "
+            "simulated storage -> real zipfile/ElementTree/ods_rows under short reads; one fault per faulted run "
+            "(truncation, cut XML, missing member, not a zip, corrupted member bytes, bad repeat counts, missing sheet); "
+            "logical table as oracle; bounded sweep of truncation offsets and tag boundaries",
+            "Seeded search plus sweep (every 64th byte / every tag boundary of a few base documents; denser in the thorough "
+            "tier); evidence, not proof.",
+            "The peer is written from the ODF specification and cross-checked by an independent reference decoder in every "
+            "fault-free run.",
+            "DESIGN.md section 5, C15"),
+    "C16": ("exploration",
+            "deterministic simulation (pipeline through simulated storage): independent XLSX encoder / real xlsxwriter -> "
+            "SimFS -> xlrd -> excel_rows, directly or through Reader with the Sheet property; documented rendering as "
+            "oracle; writer -> storage -> reader conservation",
+            "Seeded search over cell kinds, magnitudes, dates, sheets; the reach comes mostly from the workload, the "
+            "simulator contributes the storage pipeline; evidence, not proof.",
+            "Numbers render as repr(float) without trailing .0; a workbook cannot represent trailing empty text cells.",
+            "DESIGN.md section 5, C16"),
+    "C17": ("exploration",
+            "deterministic simulation (pipeline through simulated storage): one logical CID stored as csv/ods/xlsx and one "
+            "logical table stored as delimited/ods/excel, 9 combinations per case under different chunk schedules; "
+            "differential oracle between the storages",
+            "Seeded search with a differential oracle (equal CID summaries, equal per-row outcomes); evidence, not proof.",
+            "Cells are stored as text; the last column is never empty and rows are not ragged.",
+            "DESIGN.md section 5, C17"),
+    "C18": ("exploration",
+            "deterministic simulation with fault injection: applications.main(argv) in-process over simulated storage with "
+            "ENOENT / EISDIR faults on CID and data files, file lists in two orders (history on the shared Cid), --until; "
+            "RefCli from per-file API verdicts",
+            "Seeded search over CID kind x ordered file lists x --until x format x argument errors; evidence, not proof.",
+            "Where the statement gives two exit codes both are accepted, but not a dependence on the file order.",
+            "DESIGN.md section 5, C18"),
 }
 
 PENDING = {key: "designed as a simulation target in DESIGN.md section 5; its check is still under construction and is "
